@@ -284,6 +284,9 @@ func (r *Run) Flush() *Partial {
 		Counters: r.counters, Excluded: r.excluded, Samples: r.samples, Rule: r.rule, Assumptions: r.assume,
 		WallS: time.Since(r.start).Seconds(), Violations: r.violation, Inconcl: r.inconcl,
 	}
+	if r.lastFail != nil && len(p.Samples) < 12 {
+		p.Samples = append(append([]json.RawMessage(nil), p.Samples...), r.lastFail.Case)
+	}
 	hs := make([]uint64, 0, len(r.nt))
 	for h := range r.nt {
 		hs = append(hs, h)
